@@ -2,6 +2,7 @@
 E4 ``parity`` -- writer/reader and constructor/loader agreement.
 """
 import ast
+from ..model import ast_copy as _ast_copy
 
 from ..model import AnalysisError, dotted, unparse, walk_local
 
@@ -190,12 +191,12 @@ def hdf5_keys(model, ci, fn, group, mode):
                 return ast.copy_location(ast.Name(id='_', ctx=ast.Load()), n)
             if n.id in single and self.depth < 4 and _derived(single[n.id]):
                 import copy
-                return _Canon(self.depth + 1).visit(copy.deepcopy(single[n.id]))
+                return _Canon(self.depth + 1).visit(_ast_copy(single[n.id]))
             return n
 
     def pattern_text(kexpr):
         import copy
-        return unparse(_Canon().visit(copy.deepcopy(kexpr)))
+        return unparse(_Canon().visit(_ast_copy(kexpr)))
 
     def record(kexpr, node, prefix=''):
         if iterates_group(kexpr, node) or (isinstance(kexpr, ast.Name) and prefix == 'dataset-attr:' and False):
